@@ -79,10 +79,66 @@ fn authorize(req: &J) -> J {
     json!({"decision": format!("{:?}", resp.decision()), "reasons": reasons, "errors": errors})
 }
 
+fn summarize_partial(pr: &cedar_policy::PartialResponse) -> J {
+    let ids = |it: Vec<String>| {
+        let mut v = it;
+        v.sort();
+        v
+    };
+    let conc = pr.clone().concretize();
+    let mut reasons: Vec<String> = conc.diagnostics().reason().map(|p| p.to_string()).collect();
+    reasons.sort();
+    let mut errors: Vec<String> = conc
+        .diagnostics()
+        .errors()
+        .map(|e| match e {
+            cedar_policy::AuthorizationError::PolicyEvaluationError(pe) => pe.policy_id().to_string(),
+        })
+        .collect();
+    errors.sort();
+    json!({
+        "decision": pr.decision().map(|d| format!("{d:?}")),
+        "may": ids(pr.may_be_determining().map(|p| p.id().to_string()).collect()),
+        "must": ids(pr.must_be_determining().map(|p| p.id().to_string()).collect()),
+        "satisfied": ids(pr.definitely_satisfied().map(|p| p.id().to_string()).collect()),
+        "errored": ids(pr.definitely_errored().map(|p| p.to_string()).collect()),
+        "nontrivial": ids(pr.nontrivial_residuals().map(|p| p.id().to_string()).collect()),
+        "concretized": {"decision": format!("{:?}", conc.decision()), "reasons": reasons, "errors": errors},
+    })
+}
+
+/// partial authorization of `policies` (may use `unknown("name")`), then optional reauthorization under `bindings`
+/// ({name: restricted-expression text})
+fn authorize_partial(req: &J) -> J {
+    let pset = match PolicySet::from_str(req["policies"].as_str().unwrap_or("")) {
+        Ok(p) => p,
+        Err(e) => return json!({"parse_error": e.to_string()}),
+    };
+    let entities = Entities::empty();
+    let auth = Authorizer::new();
+    let pr = auth.is_authorized_partial(&basic_request(), &pset, &entities);
+    let mut out = json!({"partial": summarize_partial(&pr)});
+    if let Some(b) = req.get("bindings").and_then(|b| b.as_object()) {
+        let mut owned: Vec<(String, cedar_policy::RestrictedExpression)> = vec![];
+        for (k, v) in b {
+            match cedar_policy::RestrictedExpression::from_str(v.as_str().unwrap_or("")) {
+                Ok(e) => owned.push((k.clone(), e)),
+                Err(e) => return json!({"input_error": e.to_string()}),
+            }
+        }
+        match pr.reauthorize_with_bindings(owned.iter().map(|(k, v)| (k.as_str(), v)), &auth, &entities) {
+            Ok(pr2) => out["reauthorized"] = summarize_partial(&pr2),
+            Err(e) => out["reauthorize_error"] = json!(e.to_string()),
+        }
+    }
+    out
+}
+
 fn handle(req: &J) -> J {
     match req["op"].as_str().unwrap_or("") {
         "eval" => eval(req),
         "authorize" => authorize(req),
+        "authorize_partial" => authorize_partial(req),
         other => json!({"unknown_op": other}),
     }
 }
